@@ -911,7 +911,7 @@ fn run_log(w: &mut World, case: &Value, trace: Option<&mut Vec<Value>>, stats: &
                 }
             } else {
                 tr.push(json!({"ev": "op", "obj": obj.kind(), "op": op.to_json(), "res": if r.is_ok() { 1 } else { 0 },
-                               "st": project(w, &obj, &t), "err": r.err()}));
+                               "st": project(w, &obj, &t), "err": r.err().unwrap_or_default()}));
             }
         }
     }
@@ -1009,7 +1009,7 @@ fn replay_chunk(work: &Path, cfg: &Cfg, cases: Vec<Value>, fan_on: bool, max_fai
                 st.fan_mismatch += 1;
                 if recs.len() < max_fail {
                     let pre_ev = json!({"ev": "reset", "obj": case["obj"], "st": expected, "heads": heads});
-                    let step = json!({"ev": "op", "obj": o2.kind(), "op": op.to_json(), "res": if r.is_ok() { 1 } else { 0 }, "st": act, "err": r.clone().err()});
+                    let step = json!({"ev": "op", "obj": o2.kind(), "op": op.to_json(), "res": if r.is_ok() { 1 } else { 0 }, "st": act, "err": r.clone().err().unwrap_or_default()});
                     recs.push(json!({"type": "fan", "log": case["log"], "heads": heads, "pre": expected, "op": op.to_json(),
                                      "model_res": f[1], "expected": exp, "actual": act, "actual_res": if r.is_ok() { 1 } else { 0 },
                                      "err": r.err(), "trace": if case["obj"] == "none" { json!([]) } else { json!([pre_ev, step]) }}));
@@ -1183,7 +1183,7 @@ impl cob::Evaluate<Repository> for RecIssue {
             if let Ok(i) = &r {
                 st.tables.comments.push(*entry.id());
                 let op = issue::Op::try_from(entry).ok();
-                let aop = op.map(|op| json!([w.actor_of(&op.author), op.identity.map(|o| w.doc_of(&o)).unwrap_or(-1), "i.create", 0, 0, 0]));
+                let aop = op.map(|op| json!([w.actor_of(&op.author), op.identity.map(|o| w.doc_of(&o)).unwrap_or(-1), "i.create", 0, 0, 0])).unwrap_or(json!([]));
                 st.events.push(json!({"ev": "reset", "obj": "issue", "op": aop, "st": canon_of(project_issue(w, i, &st.tables)), "heads": w.heads()}));
             }
         });
@@ -1214,9 +1214,9 @@ impl cob::Evaluate<Repository> for RecIssue {
             if self.0.thread().comment(&id).is_some() && !st.tables.comments.contains(&id) {
                 st.tables.comments.push(id);
             }
-            let op = if aops.len() == 1 { aops[0].to_json() } else { json!(null) };
+            let op = if aops.len() == 1 { aops[0].to_json() } else { json!([]) };
             st.events.push(json!({"ev": "op", "obj": "issue", "op": op, "n_actions": aops.len(), "res": if r.is_ok() { 1 } else { 0 },
-                                  "st": canon_of(project_issue(w, &self.0, &st.tables)), "err": r.as_ref().err().map(|e| e.to_string())}));
+                                  "st": canon_of(project_issue(w, &self.0, &st.tables)), "err": r.as_ref().err().map(|e| e.to_string()).unwrap_or_default()}));
         });
         r
     }
@@ -1234,7 +1234,7 @@ impl cob::Evaluate<Repository> for RecPatch {
             if let Ok(p) = &r {
                 st.tables.revs.push(*entry.id());
                 let op = patch::Op::try_from(entry).ok();
-                let aop = op.map(|op| json!([w.actor_of(&op.author), op.identity.map(|o| w.doc_of(&o)).unwrap_or(-1), "p.create", 0, 0, 0]));
+                let aop = op.map(|op| json!([w.actor_of(&op.author), op.identity.map(|o| w.doc_of(&o)).unwrap_or(-1), "p.create", 0, 0, 0])).unwrap_or(json!([]));
                 st.events.push(json!({"ev": "reset", "obj": "patch", "op": aop, "st": canon_of(project_patch(w, p, &st.tables)), "heads": w.heads()}));
             }
         });
@@ -1262,9 +1262,9 @@ impl cob::Evaluate<Repository> for RecPatch {
             let st = c.as_mut().expect("recorder");
             let w = unsafe { &*st.world };
             register_patch_ids(&self.0, &mut st.tables, *entry.id());
-            let op = if aops.len() == 1 { aops[0].to_json() } else { json!(null) };
+            let op = if aops.len() == 1 { aops[0].to_json() } else { json!([]) };
             st.events.push(json!({"ev": "op", "obj": "patch", "op": op, "n_actions": aops.len(), "res": if r.is_ok() { 1 } else { 0 },
-                                  "st": canon_of(project_patch(w, &self.0, &st.tables)), "err": r.as_ref().err().map(|e| e.to_string())}));
+                                  "st": canon_of(project_patch(w, &self.0, &st.tables)), "err": r.as_ref().err().map(|e| e.to_string()).unwrap_or_default()}));
         });
         r
     }
@@ -1494,6 +1494,17 @@ fn record_run(w: &mut World, rng: &mut fastrand::Rng, is_issue: bool, opts: &Rec
             let related = action.parents();
             store_change(w, &type_name, Some(&object), a, ident, parents.clone(), vec![action], related)
         };
+        // Was the change accepted? (plain evaluation by the real code.) A rejected change stays in
+        // the history -- it is loaded and refused again by the recorded evaluation -- but nobody
+        // builds on it, since everything below a refused change is pruned with it.
+        let accepted = if is_issue {
+            radicle_cob::get::<Issue, _>(&w.repo, &type_name, &object).ok().flatten().map(|o| o.history().graph().contains(&oid)).unwrap_or(false)
+        } else {
+            radicle_cob::get::<Patch, _>(&w.repo, &type_name, &object).ok().flatten().map(|o| o.history().graph().contains(&oid)).unwrap_or(false)
+        };
+        if !accepted {
+            continue;
+        }
         match op.k.as_str() {
             "i.comment" => gt.comments.push(oid),
             "p.revision" => gt.revs.push(oid),
